@@ -325,6 +325,7 @@ class C06(Prop):
         "bisect_encloses_root",
         "seegerBeste_bisection_converges",
         "seegerBeste_backward_bisection_converges",
+        "seegerBeste_implicit_limit_at_load",
         # Newton's method of the repaired extended-Neuber backward functions (Proofs/C06Newton.lean)
         "neuber_dload_is_derivative",
         "neuber_dload_unrepaired_is_not",
@@ -354,7 +355,7 @@ class C06(Prop):
             "Seeger-Beste backward also scalar calls) vs the model's bisection roots within tol + rtol |root| - a miss passes only if its class "
             "is an open known finding; model root vs independent reference root (relative 1e-9).  Oracle (no Lean): reference root by an "
             "independent bisection; |value - root| <= tol + rtol |root|; |L|/K_p <= |value| <= |L| (within the tolerance); odd; increasing "
-            "on the grid; load(stress(L)) = L for array and scalar calls; ndarray = Series bit for bit, scalar = array within the tolerance; "
+            "on the grid; load(stress(L)) = L for array and scalar calls; ndarray = Series bit for bit, scalar = array bit for bit for Seeger-Beste (array and scalar backward calls too) and within the tolerance for extended Neuber; "
             "every element of a vector with zeros as its scalar call (zero -> zero, nan is a failure); a zero load / stress (scalar +0.0, -0.0, "
             "or an element of a vector, all four functions of both laws) gives zero, never nan or an error; strain / strain_secondary_branch "
             "= Ramberg-Osgood (delta) strain of the stress (independent formula, relative 1e-12) for ndarray / Series / scalar / a vector with "
@@ -366,7 +367,7 @@ class C06(Prop):
             "call returned")
     ASSUMPTIONS = [
         "C06: theorems are over the reals about the defining functions as coded (incl. the np.divide fall-backs) and about bisection "
-        "inside the bracket (the halving loop of the repaired Seeger-Beste solver, without its stopping rule and its final clipped linear "
+        "inside the bracket (the halving loop of the repaired Seeger-Beste solver, without its stopping rule - interval below 5 % of tol + rtol |root| - and its final clipped linear "
         "interpolation, /repo commit b50f603); what scipy.optimize.newton returns (extended Neuber; Seeger-Beste only on the tree before "
         "b50f603) is not provable from here - measured per run",
         "C06: Proofs/C06Newton.lean (derivative handed to Newton's method by the repaired ExtendedNeuber.load, /repo commit c6e709f, monotone "
@@ -379,12 +380,13 @@ class C06(Prop):
         "non-zero floats (ints and lists are rejected by the code with AttributeError / TypeError and are not generated)",
         "C06: 'to within the requested tolerance' is read as |returned - exact root| <= tol + rtol |root| with rtol = tol; "
         "'element-wise identical' as bit-identical for ndarray vs Series (same code path) and equal within that tolerance for "
-        "scalar vs array (scipy's scalar and vectorised iterations stop at different iterates)",
+        "scalar vs array of the extended Neuber law (scipy's scalar and vectorised iterations stop at different iterates); Seeger-Beste "
+        "(per-element bisection) must give bit-identical results for scalar and array",
         "C06: a load (stress) of exactly zero belongs to the quantifier ('every load ... both signs'): the stress (load) is zero "
         "(theorem zero_load: the equations are trivially satisfied there)",
         "C06: a law's result is a function of its REPORTED parameters (E, K', n', K_p as the object shows them), not of the object's "
         "history: history cases build an object with other values, use it, set K_p and K' through the setters (`K_p`, `K`, `K_prime`; "
-        "there is no setter for E and n') and require (a) equality with a freshly constructed law within the solver tolerance, (b) all "
+        "there is no setter for E and n') and require (a) bit-identical results of a freshly constructed law, (b) all "
         "other checks (root of the independently evaluated equation for the reported parameters, bracket, ...) and (c) agreement of the "
         "object's defining functions with the model at the reported parameters in the correspondence",
         "C06: uniqueness is among stresses (loads) of the load's (stress's) sign: F(-s, L) = -F(s, L) and F(s, -L) = F(s, L), the "
@@ -765,7 +767,9 @@ class C06(Prop):
                     if isinstance(x, str) or isinstance(y, str):
                         continue
                     self._count(f"{name}_history_values_compared")
-                    slack = 2 * (t + t * abs(y)) if label != "strain" else 1e-12 * abs(y)
+                    # same parameters, same calls: the computations are the same (Seeger-Beste solves every element on its own
+                    # by bisection; scipy's Newton iteration of the extended Neuber law is deterministic for the same vector)
+                    slack = 0.0 if label != "strain" else 1e-12 * abs(y)
                     if not (x == y or (x != x and y != y) or abs(x - y) <= slack):
                         return (f"{case['law']} branch {br}, {label}[{i}] (E={case['E']!r}, K'={case['K']!r}, n'={case['n']!r}, K_p={case['Kp']!r}, "
                                 f"rtol=tol={t!r}, loads {case['loads']!r}): the {how} returns {x!r}, a freshly constructed law with the same "
@@ -873,7 +877,9 @@ class C06(Prop):
                     elif abs(w - x) > tv:
                         F.append((f"{what}: scalar load {L!r} -> {w!r}; root of the defining equation {x!r}",
                                   self._miss_class(case, "stress", br, float(L), 0, w, "tolerance", abs(w - x) / abs(x))))
-                    elif a is not None and j not in taint and abs(w - a[j]) > 2 * tv:
+                    elif a is not None and j not in taint and (abs(w - a[j]) > 2 * tv or (not neuber and w != a[j])):
+                        # Seeger-Beste solves every element on its own (bisection): scalar and array results are identical;
+                        # extended Neuber: scipy's scalar and vectorised Newton iterations stop at different iterates
                         F.append((f"{what}: scalar input {L!r} gives {w!r}, the same load inside an array {a[j]!r}", f"{name}-containers"))
             # ---------------- a vector that holds exact zeros among other loads: every element as for the scalar call, zero -> zero
             z = r.get("zero")
@@ -935,7 +941,7 @@ class C06(Prop):
                     for i, (p, q) in enumerate(zip(back, r["back"])):
                         if isinstance(q, str) or isinstance(p, str):
                             continue
-                        if abs(p - q) > 12 * (t + t * abs(Ls[i])):
+                        if p != q:          # element by element bisection: identical
                             F.append((f"{what}: load{sfx} of the vector {r['back_in']!r} gives {p!r} for the stress {r['back_in'][i]!r}; the scalar "
                                       f"call gives {q!r}", "seegerbeste-backward-vector"))
             # ---------------- the strains
@@ -1052,7 +1058,7 @@ class C06(Prop):
                         continue
                     dev = abs(v - w) if v == v else math.inf
                     if direction == "load":
-                        if dev > 12 * (t + t * abs(w)):
+                        if dev > t + t * abs(w):        # the stress is the reference root of the load w
                             F.append((f"{what}: {fname}({xs!r}) gives {v!r} for the stress {x!r} of the load {w!r}",
                                       self._miss_class(case, "load", br, xs, i, v, "backward", dev / abs(w))))
                     elif dev > t + t * abs(w):
